@@ -165,6 +165,100 @@ def taper_mirror(ck, sh, mm, n):
 # (b) equal segments of a wire with symbolic end points
 # ---------------------------------------------------------------------------------------------
 
+def taper_wire(ck, sh, mm, segtype, coated):
+    """A tapered wire hands ITS OWN data to the taper generator: end points and radius as they are after scaling
+    (equivalent radius when coated), the limits the user gave, the tapered end.  The generators are spied on
+    (their contract is decided by the `taper` jobs); radius, scale factor, limits symbolic."""
+    M = sh.mininec
+
+    def fn():
+        c = symx.ctx()
+        r, s = pos('r', 1e-4, 0.1), pos('s', 0.01, 100)
+        mn, mx = pos('min_t', 1e-6, 1e3), pos('max_t', 1e-6, 1e3)
+        calls = []
+
+        def spy(which, real):
+            import inspect
+            sig = inspect.signature(real)
+
+            def gen(*a, **k):
+                ba = sig.bind(*a, **k)          # however the caller passes them: by the generator's own parameter names
+                args = dict(ba.arguments)
+                names = list(sig.parameters)
+                p1, p2, n, rr = (args.pop(names[i]) for i in range(4))
+                calls.append((which, p1, p2, n, rr, args))
+                a_, b_ = np.asarray(p1, dtype=object), np.asarray(p2, dtype=object)
+                for i in range(n):                      # any tiling will do: only the arguments are under test here
+                    yield a_ + (b_ - a_) * (i / n), a_ + (b_ - a_) * ((i + 1) / n)
+            return gen
+        old = (M.taper1, M.taper2)
+        M.taper1, M.taper2 = spy('taper1', old[0]), spy('taper2', old[1])
+        an = symtopo.AbstractNorm()
+        oldn = (npf.state.norm_mode, getattr(npf.state, 'abstract_norm', None))
+        npf.state.norm_mode, npf.state.abstract_norm = 'abstract', an
+        try:
+            with symx.object_arrays():
+                w = M.Wire(4, 0.1, 0.2, 0.3, 2.1, 0.5, 0.7, r)
+                w.segtype = segtype
+                w.taper_min, w.taper_max = mn, mx
+                w.n = 0
+                if coated:
+                    M.Insulation_Load(w, r * 2, 3.0)
+                w.scale(s)
+                w.compute_segments()
+                r_act = w.r
+        finally:
+            M.taper1, M.taper2 = old
+            npf.state.norm_mode, npf.state.abstract_norm = oldn
+        return dict(inputs=dict(r=r, s=s, min_t=mn, max_t=mx), calls=calls, r_act=r_act, p1=list(w.p1), p2=list(w.p2), mn=mn, mx=mx, r=r, s=s)
+
+    def goals(o):
+        if len(o['calls']) != 1:
+            return [('the taper generator is called once', z3.BoolVal(False))]
+        which, p1, p2, n, rr, kw = o['calls'][0]
+        want = 'taper2' if segtype == 3 else 'taper1'
+        g = [('generator and tapered end follow the taper type',
+              z3.BoolVal(which == want and n == 4 and (segtype == 3 or kw.get('end') == segtype - 1)))]
+        g.append(('radius handed to the generator is the actual (scaled / equivalent) radius of the wire', eq_term(rr, o['r_act'])))
+        if not coated:
+            g.append(('actual radius is the scaled radius', eq_term(o['r_act'], o['r'] * o['s'])))
+        g.append(('end points handed over are the scaled end points', z3.And(
+            *[eq_term(a, b) for a, b in zip(list(p1) + list(p2), o['p1'] + o['p2'])],
+            *[eq_term(a, SR.lift(b) * o['s']) for a, b in zip(list(p1) + list(p2), (0.1, 0.2, 0.3, 2.1, 0.5, 0.7))])))
+        g.append(('limits handed over are the user\'s limits', z3.And(eq_term(kw.get('min_t', 0.0), o['mn']), eq_term(kw.get('max_t', 0.0), o['mx']))))
+        return g
+
+    def replay(c, gn, out):
+        r, s = float(c['r']), float(c['s'])
+        w = mm.Wire(8, 0.0, 0.0, 0.0, 1.0, 0.0, 0.0, r)
+        w.segtype = segtype
+        w.n = 0
+        if coated:
+            mm.Insulation_Load(w, r * 2, 3.0)
+        w.scale(s)
+        w.compute_segments()
+        if w.segtype != segtype:
+            return None                          # fell back to equal segments: no taper claim to check
+        lens = [sg.seg_len for sg in w.segments]
+        eps = min(lens) / 10 * (1 + 1e-9)
+        if min(lens) < 2.5 * w.r - eps:
+            return ('C13:taper-wire:min', 'Wire(8, length 1, r=%r) scaled by %r, taper type %d%s: shortest segment %r is below 2.5 radii = %r'
+                    % (r, s, segtype, ', coated' if coated else '', min(lens), 2.5 * w.r), dict(kind='taper-wire', segtype=segtype))
+        w2 = mm.Wire(8, 0.0, 0.0, 0.0, s, 0.0, 0.0, r * s)
+        w2.segtype = segtype
+        w2.n = 0
+        if coated:
+            mm.Insulation_Load(w2, r * 2 * s, 3.0)
+        w2.compute_segments()
+        l2 = [sg.seg_len for sg in w2.segments]
+        if w2.segtype == segtype and not np.allclose(lens, l2, rtol=1e-9):
+            return ('C13:taper-wire:scaled', 'taper type %d: a wire scaled by %r is segmented %s, the same wire entered at that size %s'
+                    % (segtype, s, lens, l2), dict(kind='taper-wire', segtype=segtype))
+        return None
+    prove_paths(ck, 'taper-wire-type%d%s' % (segtype, '-coated' if coated else ''), fn, goals, replay, max_paths=64,
+                expect_exc=(ValueError,), timeout_ms=15000)
+
+
 def equal_segments(ck, sh, mm, n):
     M = sh.mininec
 
@@ -450,6 +544,7 @@ def main(args):
         for n in (2, 3, 4):
             parts.append(('taper', ('taper2', n, False, False)))
         parts.append(('taper', ('taper2', 4, True, True)))
+        parts += [('taper_wire', (t, False)) for t in (1, 2, 3)] + [('taper_wire', (1, True))]
         parts += [('taper_mirror', (3,)), ('equal_segments', (1,)), ('equal_segments', (7,)), ('arc', (3,)), ('arc', (5,)),
                   ('helix', (3, 1, 1)), ('helix', (4, -1, 1)), ('helix', (3, 1, -1)), ('transforms', ('x',)), ('transforms', ('z',)),
                   ('transforms', ('xy',))]
@@ -463,6 +558,7 @@ def main(args):
             parts.append(('taper', ('taper1', n, False, False)))
             parts.append(('taper', ('taper2', n, False, False)))
         parts += [('taper_mirror', (n,)) for n in (2, 3, 4, 5)]
+        parts += [('taper_wire', (t, c)) for t in (1, 2, 3) for c in (False, True)]
         parts += [('equal_segments', (n,)) for n in (1, 2, 3, 7, 20, 40)]
         parts += [('arc', (n,)) for n in (3, 4, 8, 16)]
         parts += [('helix', (n, a, b)) for n in (3, 5, 8) for a in (1, -1) for b in (1, -1)]
